@@ -282,6 +282,14 @@ def direction_pairs(p):
                 continue
             seen.add((id(f), id(i)))
             assume = {"self.training": False}
+            from ..rankcase import has_rank_tests, rank_decider
+
+            xf, xi = (f.params()[0][0] if f.params() else None), (i.params()[0][0] if i.params() else None)
+            if xf and xi and (has_rank_tests(f.node, xf) or has_rank_tests(i.node, xi)):
+                # the two directions may tell 2-D from 4-D inputs in different spellings: one pair per rank
+                for r in (2, 3, 4):
+                    out.append(("%s.%s/%s [rank %d]" % (cls.name, fn, inn, r), paths_of(f.node, dict(assume, __decide__=rank_decider(xf, r))), paths_of(i.node, dict(assume, __decide__=rank_decider(xi, r))), f, i))
+                continue
             out.append(("%s.%s/%s" % (cls.name, fn, inn), paths_of(f.node, assume), paths_of(i.node, assume), f, i))
         for name in FLAG_FUNCS:
             f = cls.methods.get(name)
@@ -556,35 +564,114 @@ def ld_shape_rule(ctx):
 def ld_mult_rule(ctx):
     p = ctx.p
     res = RuleResult("LD-MULT", "a log-derivative that lacks some non-batch axes of the inputs is multiplied by the sizes of exactly the missing axes")
-    # ActNorm: per-channel log_scale for [B,C,H,W] inputs -> h * w * sum(log_scale)
+    # ActNorm: per-channel log_scale for [B,C,H,W] inputs -> h * w * sum(log_scale).  Decided on the
+    # monomial normal form (prodnf) of the returned log-det after canonicalising the spellings of
+    # an axis size and dropping broadcasts to the batch: +-1 * sum[log_scale] * H * W  (4-D),
+    # +-1 * sum[log_scale]  (2-D)
+    from ..prodnf import NotMonomial, monomial as _monomial
+
+    class _CanonSizes(ast.NodeTransformer):
+        def __init__(self, x):
+            self.x = x
+
+        def _dim(self, e):
+            """axis number when `e` spells the size of one axis of the inputs"""
+            if is_component(e) and norm_text(e.args[0]) in ("%s.shape" % self.x, "%s.size()" % self.x):
+                return int(const_number(e.args[1]))
+            if is_component(e) and isinstance(e.args[0], ast.Call) and isinstance(e.args[0].func, ast.Name) and e.args[0].func.id == "__rest__" and norm_text(e.args[0].args[0]) in ("%s.shape" % self.x, "%s.size()" % self.x) and const_number(e.args[0].args[1]) is not None:
+                return int(const_number(e.args[0].args[1])) + int(const_number(e.args[1]))
+            if isinstance(e, ast.Subscript) and norm_text(e.value) in ("%s.shape" % self.x, "%s.size()" % self.x) and const_number(e.slice) is not None:
+                return int(const_number(e.slice))
+            if isinstance(e, ast.Call) and isinstance(e.func, ast.Attribute) and e.func.attr == "size" and norm_text(e.func.value) == self.x and len(e.args) == 1 and const_number(e.args[0]) is not None:
+                return int(const_number(e.args[0]))
+            return None
+
+        def visit(self, e):
+            d = self._dim(e)
+            if d is not None:
+                return ast.Name(id="__axis%d__" % (d % 4 if d < 0 else d), ctx=ast.Load())
+            if isinstance(e, ast.Call):
+                f = e.func
+                last = _last(e)
+                # numel of the trailing axes: x.shape[2:].numel(), math.prod(x.shape[2:]), x[0, 0].numel()
+                tail = None
+                if last == "numel" and isinstance(f, ast.Attribute) and isinstance(f.value, ast.Subscript):
+                    sub = f.value
+                    if norm_text(sub.value) in ("%s.shape" % self.x, "%s.size()" % self.x) and isinstance(sub.slice, ast.Slice) and sub.slice.upper is None and sub.slice.step is None and const_number(sub.slice.lower) is not None:
+                        tail = int(const_number(sub.slice.lower))
+                    elif norm_text(sub.value) == self.x and isinstance(sub.slice, ast.Tuple) and all(const_number(i) is not None for i in sub.slice.elts):
+                        tail = len(sub.slice.elts)
+                if last == "prod" and len(e.args) == 1 and isinstance(e.args[0], ast.Subscript):
+                    sub = e.args[0]
+                    if norm_text(sub.value) in ("%s.shape" % self.x, "%s.size()" % self.x) and isinstance(sub.slice, ast.Slice) and sub.slice.upper is None and sub.slice.step is None and const_number(sub.slice.lower) is not None:
+                        tail = int(const_number(sub.slice.lower))
+                if tail is not None and 0 <= tail <= 4:
+                    out = ast.Constant(value=1)
+                    for d in range(tail, 4):
+                        out = ast.BinOp(left=out, op=ast.Mult(), right=ast.Name(id="__axis%d__" % d, ctx=ast.Load()))
+                    return out
+                # broadcasts to the batch carry no factor
+                if last in ("new_ones", "ones_like", "ones"):
+                    return ast.Constant(value=1)
+                if last in ("expand", "expand_as", "repeat", "broadcast_to") and isinstance(f, ast.Attribute) and not (isinstance(f.value, ast.Name) and f.value.id in ("torch", "np")):
+                    return self.visit(f.value)
+                if last in ("float", "double", "to", "type_as") and isinstance(f, ast.Attribute) and not (isinstance(f.value, ast.Name) and f.value.id in ("torch", "np")):
+                    return self.visit(f.value)
+            return self.generic_visit(e)
+
     act = p.find_class("ActNorm", "nflows.transforms.normalization")
     for direction in ("forward", "inverse"):
         fi = act.methods.get(direction)
+        if fi is None:
+            res.undecide("ActNorm.%s" % direction, "method missing")
+            continue
+        xname = fi.params()[0][0]
         found4 = found2 = False
-        for path in paths_of(fi.node, {"self.training": False}):
+        from ..rankcase import rank_decider
+
+        per_rank = []
+        for rank in (2, 4):
+            for path in paths_of(fi.node, {"self.training": False, "__decide__": rank_decider(xname, rank)}):
+                per_rank.append((rank, path))
+        for rank, path in per_rank:
             if path.kind != "return":
                 continue
             ld = _ld_of_path(path)
-            atoms = {(norm_text(raw), pol) for et, raw, pol in path.conds}
-            is4 = ("inputs.dim() == 4", True) in atoms
-            is2 = ("inputs.dim() == 4", False) in atoms
-            s, fac = product_factors(ld)
-            ftxt = [brief(f, 80) for f in fac]
-            shape_comps = [f for f in fac if is_component(f) and norm_text(f.args[0]) in ("inputs.shape", "inputs.size()")]
-            idxs = sorted(f.args[1].value for f in shape_comps)
-            has_sum = any("torch.sum(self.log_scale)" in t or "self.log_scale.sum()" in t for t in ftxt)
-            if is4:
+            if ld is None:
+                continue
+            import copy
+
+            canon = _CanonSizes(xname).visit(copy.deepcopy(ld))
+            ast.fix_missing_locations(canon)
+            try:
+                c, m = _monomial(canon)
+            except NotMonomial as ex:
+                res.undecide("ActNorm.%s [%d-D]" % (direction, rank), "log-det is not a product: %s" % ex)
+                continue
+            sizes = {}
+            sums = 0
+            rest = []
+            for a, k in m.items():
+                if a[0] == "leaf" and a[1].startswith("__axis") and a[1].endswith("__"):
+                    sizes[int(a[1][6:-2])] = k
+                elif a[0] == "sum" and a[2] in ("dim=all",) and dict(a[1]) == {("leaf", "self.log_scale"): 1}:
+                    sums += k
+                else:
+                    rest.append(a)
+            want_sizes = {2: 1, 3: 1} if rank == 4 else {}
+            label = "ActNorm.%s [%d-D]" % (direction, rank)
+            if rank == 4:
                 found4 = True
-                if idxs == [2, 3] and has_sum:
-                    res.ok("ActNorm.%s [4-D]: h * w * sum(log_scale)" % direction)
-                else:
-                    res.fail(Finding("LD-MULT", fi.module, fi.qualname, path.ret_node, "for image inputs the per-channel log-scale acts on every pixel: the log-det must be h * w * sum(log_scale); the factors taken from inputs.shape are at positions %s" % idxs))
-            elif is2:
+            else:
                 found2 = True
-                if idxs == [] and has_sum:
-                    res.ok("ActNorm.%s [2-D]: sum(log_scale)" % direction)
-                else:
-                    res.fail(Finding("LD-MULT", fi.module, fi.qualname, path.ret_node, "for 2-D inputs the log-det must be sum(log_scale) without spatial factors"))
+            if rest:
+                res.undecide(label, "log-det has factors this rule does not know: %s" % [str(a)[:50] for a in rest][:3])
+            elif sums == 1 and sizes == want_sizes and abs(c) == 1:
+                res.ok("%s: %s" % (label, "h * w * sum(log_scale)" if rank == 4 else "sum(log_scale)"))
+            elif rank == 4:
+                res.fail(Finding("LD-MULT", fi.module, fi.qualname, path.ret_node, "for image inputs the per-channel log-scale acts on every pixel: the log-det must be h * w * sum(log_scale); found coefficient %s, sum(log_scale)^%d and the axis sizes %s" % (c, sums, {("BCHW"[d] if 0 <= d < 4 else d): k for d, k in sorted(sizes.items())})))
+            else:
+                res.fail(Finding("LD-MULT", fi.module, fi.qualname, path.ret_node, "for 2-D inputs the log-det must be sum(log_scale) without further factors; found coefficient %s, sum(log_scale)^%d and the axis sizes %s" % (c, sums, sorted(sizes))))
         if not (found4 and found2):
             res.undecide("ActNorm.%s" % direction, "2-D / 4-D branches not found")
     # OneByOneConvolution: one matrix log-det per pixel row -> reshape(b, h, w) summed
@@ -1218,6 +1305,10 @@ def orth_rule(ctx):
         return res
     loop = lp[0]
     carried = rets[0].value.elts[0].id
+    # the returned name may be a plain copy, made after the loop, of the variable the loop carries
+    for st in ap.node.body[ap.node.body.index(loop) + 1 :]:
+        if isinstance(st, ast.Assign) and len(st.targets) == 1 and isinstance(st.targets[0], ast.Name) and st.targets[0].id == carried and isinstance(st.value, ast.Name):
+            carried = st.value.id
     params = [a for a, _ in ap.params()]
     xin, rows = params[0], params[1]
     # the carried tensor starts as the inputs
